@@ -8,7 +8,7 @@ use std::hash::{Hash, Hasher};
 use std::io::Write as _;
 use std::process::{Command, Stdio};
 
-pub const SHAPES: [&str; 10] = ["seq-inline", "seq-lines", "map-lines", "explicit-key", "flow-seq", "flow-map", "flow-map-json", "alternating", "block-then-flow", "anchored-seq-inline"];
+pub const SHAPES: [&str; 11] = ["seq-inline", "seq-lines", "map-lines", "explicit-key", "flow-seq", "flow-map", "flow-map-json", "alternating", "block-then-flow", "anchored-seq-inline", "anchored-alias-chain"];
 /// `*-1MiB`: the same scenario on a thread with a 1 MiB stack (the budget of the stack probes): the
 /// pull and push interfaces keep their continuation on the heap, so their stack use must not depend
 /// on the depth at all, and a per-level frame anywhere in scanner or parser shows up ten times earlier.
@@ -32,6 +32,7 @@ pub fn make_input_leaf(shape: &str, depth: usize, leaf: Option<&str>) -> String 
             "seq-lines" | "alternating" => ("a\n", format!("{l}\n")),
             "map-lines" => ("v\n", format!("{l}\n")),
             "flow-seq" => ("[]", format!("[{l}]")),
+            "anchored-alias-chain" => ("[a]", format!("[{l}]")),
             "flow-map" => ("b}", format!("{l}}}")),
             "flow-map-json" => ("1}", format!("{l}}}")),
             _ => ("[a]", format!("[{l}]")),
@@ -51,6 +52,13 @@ fn make_input_default(shape: &str, depth: usize) -> String {
                 s.push_str("- ");
             }
             s.push_str("a\n");
+        }
+        "anchored-alias-chain" => {
+            // flat text, deep tree: every line wraps an alias to the previous line's node
+            s.push_str("- &a0 [a]\n");
+            for i in 1..depth {
+                s.push_str(&format!("- &a{i} [*a{}]\n", i - 1));
+            }
         }
         "anchored-seq-inline" => {
             // the whole nest carries an anchor (the loader keeps a copy of every anchored node)
@@ -148,6 +156,7 @@ fn make_input_default(shape: &str, depth: usize) -> String {
 pub fn max_depth_for(shape: &str) -> usize {
     match shape {
         "seq-lines" | "map-lines" | "alternating" => 3000,
+        "anchored-alias-chain" => 10_000,
         _ => usize::MAX,
     }
 }
@@ -540,6 +549,10 @@ pub fn run_c11(tier: &str, _seed: u64, shard: u64, nshards: u64, stats: &mut Sta
             if ((si * APIS.len() + ai) as u64) % nshards != shard {
                 continue;
             }
+            // the alias chain costs quadratic loader work (a known finding of C01): three APIs suffice
+            if *shape == "anchored-alias-chain" && !matches!(*api, "iterate" | "load" | "load-marked") {
+                continue;
+            }
             let mut first_death: Option<(usize, Outcome)> = None;
             let deep_ok = matches!(*api, "iterate" | "push" | "iterate-1MiB" | "push-1MiB");
             let ladder: Vec<usize> = if deep_ok && tier != "thorough" { depths.iter().copied().chain([30_000, 100_000]).collect() } else { depths.to_vec() };
@@ -605,7 +618,8 @@ pub fn run_c11(tier: &str, _seed: u64, shard: u64, nshards: u64, stats: &mut Sta
         if ((SHAPES.len() * APIS.len() + si) as u64) % nshards != shard {
             continue;
         }
-        let max = max.min(max_depth_for(shape));
+        // (the alias chain makes the loaders do quadratic work: a short sweep is enough there)
+        let max = if *shape == "anchored-alias-chain" { 60 } else { max.min(max_depth_for(shape)) };
         let o = run_scenario(shape, max, "sweep");
         stats.eval(Some(format!("{shape}/{max}/sweep").as_bytes()));
         stats.cnt("scenarios", 1);
